@@ -1,5 +1,5 @@
 """event kinds consumed by each wire/system trace specification"""
-TX_KINDS = ["reset", "rxf", "txf", "dg", "dgrx", "app_open", "panic", "stall"]
+TX_KINDS = ["reset", "rxf", "txf", "dg", "rxd", "app_open", "panic", "stall"]
 PIPE_KINDS = ["reset", "app_send_call", "app_finish", "rxf", "app_recv", "app_eos", "panic", "stall"]
 
 
